@@ -10,7 +10,8 @@ for m in sorted(glob.glob("/verif/seeded/*/meta.json")):
     what = j.get("summary", "")
     cls = ""
     if caught and caught[0].get("violations"): cls = caught[0]["violations"][0]["class"].split(" |")[0][:90]
-    rows.append("| %s | %s | %s | %s | %s |" % (j["id"], what.replace("|", "/"), ", ".join(d["check"] for d in caught) or "-", ", ".join(d["check"] for d in missed) or "-", cls.replace("|", "/")))
+    what = what
+    rows.append("| %s | %s | %s | %s | %s |" % (j["id"], (what + (" - " + j["why_missed"] if j.get("why_missed") else "")).replace("|", "/"), ", ".join(d["check"] + (" (thorough)" if d.get("tier") == "thorough" else "") for d in caught) or "-", ", ".join(sorted({d["check"] for d in missed} - {d["check"] for d in caught if d.get("tier") != "thorough"})) or "-", cls.replace("|", "/")))
 tab = "| id | change | caught by (quick) | missed by | first violation class |\n|---|---|---|---|---|\n" + "\n".join(rows)
 s = open("/verif/DESIGN.md").read()
 s = re.sub(r"SEEDED-TABLE-BEGIN.*?SEEDED-TABLE-END", "SEEDED-TABLE-BEGIN\n" + tab + "\nSEEDED-TABLE-END", s, flags=re.S)
